@@ -1,4 +1,185 @@
+import LdarModel.Model.Summary
 import LdarModel.Driver.Proto
-/- driver stub: replaced by the component's real driver -/
-open LdarModel.Proto
-def main : IO Unit := runDriver (fun (_ : Unit) (_ : List String) => ((), "bad-op")) ()
+/-
+Driver for the summary aggregation model (state: program folders + the two summary tables).
+
+  reset <years> <kNum> <kDen>        years = [2023,2024]; k = KG_TO_MMBTU as an exact fraction   -> ok
+  mkdir <dir>                                                                                   -> ok
+  put <dir> <name> <kind> <rows>     kind ts   rows [[emis,mit,nonmit,cost],...]
+                                     kind emis rows [[mitigated,trueVol,estVol,rep01,rate,began,ended,theory],...]
+                                     kind est  rows [[site,type,meas01,vol,start,end],...]
+                                     kind rep  rows [[vol,start,end],...]
+                                     kind other rows []        dates are [y,m,d] or -            -> ok | no-dir
+  gen <clear01> <visit>              visit = [[dir,[names of the TS scan],[EMIS scan],[EST scan],[REP scan],
+                                     [mark/clear scan]],...] in visiting order; every listing must be
+                                     a permutation of the model's folder
+                                                -> ok | bad-visit | bad-listing:<dir> | crash:name-regex
+  table ts|emis                      -> prog:sim|v|v|...;prog:sim|...      v = num/den | p<q>:[column]
+  dirs                               -> dir=name,name,...;dir=...
+  cost <nonbase> <econ>              nonbase = [prog,...]; econ = [[prog,gwpNum,gwpDen,gasNum,gasDen],...]
+                                     -> prog:sim|mitigation|total|ratio or div0|value;...
+  batches <n>                        -> [5,5,2] [[0,1,2,3,4],[5,...],...]
+  parse <name>                       -> <program> <simulation> <ts01><emis01><est01><rep01><kept01> | none ...
+  ord <y> <m> <d>                    -> days since 1970-01-01
+-/
+open LdarModel LdarModel.Summary LdarModel.Proto
+
+structure DSt where
+  years : List Nat := []
+  k : Rat := 0
+  st : St Content := { dirs := [], ts := [], emis := [] }
+
+def str (n : Name) : String := String.ofList n
+
+def showRat (r : Rat) : String := s!"{r.num}/{r.den}"
+
+def showVal : Val → String
+  | .q r => showRat r
+  | .pct p col => s!"p{p}:{showList toString col}"
+
+def showKey (k : Key) : String := s!"{str k.1}:{str k.2}"
+
+def showTable (t : Table (List Val)) : String :=
+  ";".intercalate (t.map fun x => "|".intercalate (showKey x.1 :: x.2.map showVal))
+
+def date? (s : String) : Option (Option Date) :=
+  if s = "-" then some none
+  else match natList? s with
+    | some [y, m, d] => some (some { y := y, m := m, d := d })
+    | _ => none
+
+def emisRow? (s : String) : Option EmisRow := do
+  match ← splitTop s with
+  | [a, b, c, r, t, d1, d2, d3] =>
+    some { mitigated := ← int? a, trueVol := ← int? b, estVol := ← int? c, repairable := ← bool? r,
+           trueRate := ← int? t, began := ← date? d1, ended := ← date? d2, theory := ← date? d3 }
+  | _ => none
+
+def estRow? (s : String) : Option EstRow := do
+  match ← splitTop s with
+  | [a, b, c, v, d1, d2] =>
+    some { site := ← nat? a, stype := ← nat? b, measured := ← bool? c, vol := ← int? v,
+           start := ← date? d1, stop := ← date? d2 }
+  | _ => none
+
+def repRow? (s : String) : Option RepRow := do
+  match ← splitTop s with
+  | [v, d1, d2] => some { vol := ← int? v, start := ← date? d1, stop := ← date? d2 }
+  | _ => none
+
+def tsRow? (s : String) : Option (Int × Int × Int × Int) := do
+  match ← intList? s with
+  | [a, b, c, d] => some (a, b, c, d)
+  | _ => none
+
+def content? (kind rows : String) : Option Content :=
+  match kind with
+  | "ts" => (listOf? tsRow? rows).map Content.ts
+  | "emis" => (listOf? emisRow? rows).map Content.emis
+  | "est" => (listOf? estRow? rows).map Content.est
+  | "rep" => (listOf? repRow? rows).map Content.rep
+  | "other" => some Content.other
+  | _ => none
+
+/-- the files of the folder in the order of the received listing; `none` unless the listing is a
+permutation of the folder -/
+def resolve (d : List (File Content)) (names : List Name) : Option (List (File Content)) :=
+  if names.length != d.length then none
+  else if !(d.all fun f => names.contains f.name) then none
+  else names.mapM fun n => d.find? fun f => f.name == n
+
+def visit? (st : St Content) (s : String) : Option (Except String (List (Name × Listings Content))) := do
+  let items ← splitTop s
+  let parsed ← items.mapM fun it => do
+    match ← splitTop it with
+    | [d, a, b, c, e, m] =>
+      some (d.toList, ← listOf? (fun x => some x.toList) a, ← listOf? (fun x => some x.toList) b,
+            ← listOf? (fun x => some x.toList) c, ← listOf? (fun x => some x.toList) e,
+            ← listOf? (fun x => some x.toList) m)
+    | _ => none
+  let pd := progDirs st
+  let vnames := parsed.map (·.1)
+  if vnames.length != pd.length || !(pd.all fun x => vnames.contains x.1) then
+    return .error "bad-visit"
+  let res := parsed.mapM (m := Except String) fun (d, a, b, c, e, m) =>
+    match pd.lookup d with
+    | none => .error "bad-visit"
+    | some files =>
+      match resolve files a, resolve files b, resolve files c, resolve files e, resolve files m with
+      | some la, some lb, some lc, some le, some _ =>
+        .ok (d, ({ ts := la, emis := lb, est := lc, rep := le } : Listings Content))
+      | _, _, _, _, _ => .error s!"bad-listing:{str d}"
+  return res
+
+def showCost (t : Table CostRow) : String :=
+  ";".intercalate (t.map fun x =>
+    "|".intercalate [showKey x.1, showRat x.2.mitigation, showRat x.2.totalCost,
+                     (match x.2.ratio with | some r => showRat r | none => "div0"), showRat x.2.value])
+
+def econ? (s : String) : Option (Name × Rat × Rat) := do
+  match ← splitTop s with
+  | [p, a, b, c, d] =>
+    some (p.toList, ((← int? a : Int) : Rat) / ((← nat? b : Nat) : Rat),
+          ((← int? c : Int) : Rat) / ((← nat? d : Nat) : Rat))
+  | _ => none
+
+def b01 (b : Bool) : String := if b then "1" else "0"
+
+def step (s : DSt) (toks : List String) : DSt × String :=
+  match toks with
+  | ["reset", ys, kn, kd] =>
+    match natList? ys, int? kn, nat? kd with
+    | some ys, some kn, some kd => ({ years := ys, k := (kn : Rat) / (kd : Rat) }, "ok")
+    | _, _, _ => (s, "bad-op")
+  | ["mkdir", d] => ({ s with st := { s.st with dirs := s.st.dirs ++ [(d.toList, [])] } }, "ok")
+  | ["put", d, name, kind, rows] =>
+    match content? kind rows with
+    | none => (s, "bad-op")
+    | some c =>
+      if (s.st.dirs.lookup d.toList).isNone then (s, "no-dir")
+      else
+        let f : File Content := { name := name.toList, content := c }
+        ({ s with st := { s.st with dirs := s.st.dirs.map fun pd =>
+            if pd.1 == d.toList then (pd.1, pd.2 ++ [f]) else pd } }, "ok")
+  | ["gen", cl, v] =>
+    match bool? cl, visit? s.st v with
+    | some cl, some (.ok visit) =>
+      let S := concreteStats s.years
+      let wn := visit.all fun x =>
+        wellNamed tsSuffix x.2.ts && wellNamed emisSuffix x.2.emis && wellNamed estSuffix x.2.est
+          && wellNamed repSuffix x.2.rep
+      if !wn then (s, "crash:name-regex")
+      else ({ s with st := genAll S cl visit s.st }, "ok")
+    | some _, some (.error e) => (s, e)
+    | _, _ => (s, "bad-op")
+  | ["table", "ts"] => (s, showTable s.st.ts)
+  | ["table", "emis"] => (s, showTable s.st.emis)
+  | ["dirs"] =>
+    (s, ";".intercalate (s.st.dirs.map fun pd => str pd.1 ++ "=" ++ ",".intercalate (pd.2.map fun f => str f.name)))
+  | ["cost", nb, ec] =>
+    match listOf? (fun x => some x.toList) nb, listOf? econ? ec with
+    | some nb, some ec =>
+      let econ : Name → Rat × Rat := fun p => (ec.lookup p).getD (0, 0)
+      (s, showCost (costSummary nb econ s.k s.st.emis s.st.ts))
+    | _, _ => (s, "bad-op")
+  | ["batches", n] =>
+    match nat? n with
+    | some n =>
+      let bs := batchSimulations n
+      let sims := bs.zipIdx.map fun x => batchSims x.2 x.1
+      (s, showList toString bs ++ " " ++ showList (showList toString) sims)
+    | none => (s, "bad-op")
+  | ["parse", name] =>
+    let n := name.toList
+    let flags := b01 (hasSuffix tsSuffix n) ++ b01 (hasSuffix emisSuffix n) ++ b01 (hasSuffix estSuffix n)
+      ++ b01 (hasSuffix repSuffix n) ++ b01 (isKept n)
+    match parseName n with
+    | some k => (s, s!"{str k.1} {str k.2} {flags}")
+    | none => (s, s!"none {flags}")
+  | ["ord", y, m, d] =>
+    match nat? y, nat? m, nat? d with
+    | some y, some m, some d => (s, toString ({ y := y, m := m, d := d } : Date).ord)
+    | _, _, _ => (s, "bad-op")
+  | _ => (s, "bad-op")
+
+def main : IO Unit := runDriver step {}
